@@ -97,18 +97,27 @@ def lniceCmd (f : List String) : Option String :=
     -- pushing an end one further step out.  Whether the observed result is acceptable is decided by `niceOKB`, not by this relation.
     let nudges : List Rat := [0, 1 / 1000000000000, -1 / 1000000000000]
     let olo := ratMin n0 n1; let ohi := ratMax n0 n1
-    let same := (d0 == d1 && n0 == d0 && n1 == d1) || nudges.any (fun e0 => nudges.any (fun e1 =>
+    -- `matches k`: the observed result is the model's (for some nudge) with at most `k` ends pushed one further step OF THE SECOND PASS out
+    let matchesWith (ks : List Nat) : Bool := nudges.any (fun e0 => nudges.any (fun e1 =>
       let span := ratAbs (d1 - d0)
-      let rr := Scale.nice (d0 + e0 * (ratAbs d0 + span)) (d1 + e1 * (ratAbs d1 + span)) m
-      let st := (tickRange rr.1 rr.2 m).2.2
+      let a0 := d0 + e0 * (ratAbs d0 + span)
+      let a1 := d1 + e1 * (ratAbs d1 + span)
+      let pp := nicePass a0 a1 m
+      let rr := Scale.nice a0 a1 m
+      let st2 := (tickRange pp.1 pp.2 m).2.2          -- the step the second pass rounds with
       let lo := ratMin rr.1 rr.2; let hi := ratMax rr.1 rr.2
       let endOK (obs mod outward : Rat) : Bool :=
-        [0, 1].any (fun (k : Nat) => decide (ratAbs (obs - (mod + outward * (k : Rat) * st)) ≤ st / 1000000 + ratAbs mod / 281474976710656))
-      decide (0 < st) && endOK olo lo (-1) && endOK ohi hi 1))
+        ks.any (fun (k : Nat) => decide (ratAbs (obs - (mod + outward * (k : Rat) * st2)) ≤ st2 / 1000000 + ratAbs mod / 281474976710656))
+      decide (0 < st2) && endOK olo lo (-1) && endOK ohi hi 1))
+    let exactSame := (d0 == d1 && n0 == d0 && n1 == d1) || matchesWith [0]
+    let same := exactSame || matchesWith [0, 1]
     let ftol := ratMax (ratMax (ratAbs d0) (ratAbs d1)) (ratMax (ratAbs n0) (ratAbs n1)) / 281474976710656
     let prop := niceOKB ftol d0 d1 m n0 n1
+    let noround := niceOKNoRoundB ftol d0 d1 m n0 n1
     let mOK := niceOKB 0 d0 d1 m r.1 r.2
-    some s!"lnice same={if tie then "tie" else okL same} prop={okL prop} model={okL mOK} moved={if r == (d0, d1) then 0 else 1}"
+    -- overshoot=1: the observed ends are the exact algorithm's with an end one further second-pass step out (a float quotient that sits on
+    -- an integer): the signature of known finding F4 when the roundness clause is the only one that fails
+    some s!"lnice same={if tie then "tie" else okL same} prop={okL prop} noround={okL noround} overshoot={if same && !exactSame then 1 else 0} model={okL mOK} moved={if r == (d0, d1) then 0 else 1}"
   | _ => none
 
 def parseOp (s : String) : Option Op :=
